@@ -196,10 +196,16 @@ def run(chk):
             rows.append((ca, rng.choice(idxA[:12] if rng.random() < 0.7 else idxA), cb, rng.choice(idxB[:12] if rng.random() < 0.7 else idxB)))
         if rng.random() < 0.3 and n > 1:
             rows.append(rows[0])                      # an exact duplicate clone
+        if t % 4 == 1:
+            # same alpha chain, beta chain one substitution away (the whole distance then comes from ONE chain), and the mirror image
+            ca0, va0, cb0, vb0 = rows[0]
+            if len(cb0) > 7 and len(ca0) > 7:
+                rows.append((ca0, va0, cb0[:5] + ("A" if cb0[5] != "A" else "G") + cb0[6:], vb0))
+                rows.append((ca0[:5] + ("A" if ca0[5] != "A" else "G") + ca0[6:], va0, cb0, vb0))
         df = pd.DataFrame(rows, columns=["CDR3A", "TRAV", "CDR3B", "TRBV"])
         if rng.random() < 0.3:
             df.index = range(10, 10 + len(df))        # non-default index labels
-        chain = rng.choice(["alpha", "beta", "both"])
+        chain = rng.choice(["alpha", "beta", "both"]) if t % 4 != 1 else "both"
         trimmed = rng.choice([True, False])
         k = rng.choice([1, 2])
         max_t = rng.choice([0, 12, 24, 50, 200])
@@ -222,6 +228,12 @@ def run(chk):
                 for j in range(nrow):
                     vd[i][j] += M[pos[colv[i]]][pos[colv[j]]]
                     cd[i][j] += pwseqdist.cdr3_distance(col3[i], col3[j], **par)
+        if t % 4 in (1, 2):
+            # the radius sits EXACTLY on the TCRdist of one of the candidate pairs ("at most max_tcrdist" includes equality)
+            on_radius = sorted({vd[i][j] + cd[i][j] for i in range(nrow) for j in range(i + 1, nrow)
+                                if levd(edit_seqs[i], edit_seqs[j]) <= k and vd[i][j] + cd[i][j] == int(vd[i][j] + cd[i][j])})
+            if on_radius:
+                max_t = int(on_radius[(t // 4) % len(on_radius)])
         ops.append({"op": "nn_tcrdist" if nrow <= 7 else "nn_tcrdist_spec", "k": k, "edit_seqs": edit_seqs, "vd": [[core.fstr(x) for x in r] for r in vd],
                     "cd": [[core.fstr(x) for x in r] for r in cd], "max_tcrdist": core.fstr(max_t)})
         meta = {"rows": rows, "chain": chain, "edit_on_trimmed": trimmed, "max_edits": k, "max_tcrdist": max_t,
